@@ -8,6 +8,10 @@
  *        cw cwset ch chset cx cxset cy cyset eopt}*N }*NSTAGES
  *   KIND 0: source made by the real compressor from random pixels (AMP = quality)
  *        1: source made by jpeg_write_coefficients from random blocks (|coef| <= AMP)
+ *        2: as 0, multi-scan (one scan per component, or simple progression), component ci on
+ *           quantization slot tq[ci], and DQT segments spliced in BETWEEN the scans; the tokens
+ *             tq*NC ORDER NSPLICE {AFTER_SCAN SLOT DELTA}*NSPLICE
+ *           follow SEED (slot SLOT := clip(initial table + DELTA) after scan AFTER_SCAN)
  *   MODE 0 baseline Huffman 1 optimised Huffman 2 progressive 3 arithmetic 4 arithmetic progressive
  *   PATH 0: tj3Transform  1: jtransform_* sequence as in jpegtran.c
  *        2: as 1, but the source coefficient arrays are overwritten with random
@@ -17,7 +21,8 @@
  * A stage takes output 0 of the previous stage as its source.
  * One output line per case:
  *   S <image> ; ok | <image> | ...   or   S <image> ; err <Name>      stages joined by " # "
- *   <image> = W H CS NC { hs vs wb hb q*64 coef*(wb*hb*64) }*NC
+ *   <image> = W H CS NC { 0 | 1 q*64 }*4 { hs vs wb hb tq q*64 coef*(wb*hb*64) }*NC
+ *             (final content of the referenced slots; per component the LATCHED table)
  */
 #include "transupp.c"
 #include <setjmp.h>
@@ -40,9 +45,41 @@ static unsigned long long rnd(void) { rs += 0x9E3779B97F4A7C15ULL; unsigned long
 static int rup(int a, int b) { return (a + b - 1) / b * b; }
 
 /* ------------------------------------------------------------------ source */
-static int make_source(int w, int h, int prec, int cs, int nc, int *hs, int *vs, int kind, int mode, int amp,
-                       unsigned long long seed, unsigned char **out, unsigned long *outsize)
+typedef struct { int tq[MAX_COMPONENTS], order, nsplice, after[8], slot[8], delta[8]; } reslot_t;
+
+/* splice DQT segments between the scans of a finished file */
+static void splice_dqts(unsigned char **buf, unsigned long *size, reslot_t *rs_, unsigned int base[4][64])
 {
+  size_t ends[64]; int nscan = 0, i, k; size_t pos = 2; unsigned char *b = *buf; unsigned long n = *size;
+  while (pos + 4 <= n && nscan < 64) {
+    unsigned m, len;
+    if (b[pos] != 0xFF) return;
+    m = b[pos + 1]; if (m == 0xD9) break;
+    len = (b[pos + 2] << 8) | b[pos + 3]; pos += 2 + len;
+    if (m == 0xDA) {
+      while (pos + 1 < n && !(b[pos] == 0xFF && b[pos + 1] != 0x00 && !(b[pos + 1] >= 0xD0 && b[pos + 1] <= 0xD7))) pos++;
+      ends[nscan++] = pos;
+    }
+  }
+  if (!nscan) return;
+  /* insert from the last position backwards so that earlier offsets stay valid */
+  for (k = nscan; k >= 1; k--)
+    for (i = rs_->nsplice - 1; i >= 0; i--) {
+      int after = rs_->after[i] > nscan ? nscan : (rs_->after[i] < 1 ? 1 : rs_->after[i]);
+      unsigned char dqt[69]; int j; unsigned char *nb;
+      if (after != k) continue;
+      dqt[0] = 0xFF; dqt[1] = 0xDB; dqt[2] = 0; dqt[3] = 67; dqt[4] = (unsigned char)(rs_->slot[i] & 3);
+      for (j = 0; j < 64; j++) { int v = (int)base[rs_->slot[i] & 3][jpeg_natural_order[j]] + rs_->delta[i]; dqt[5 + j] = (unsigned char)(v > 255 ? 255 : v < 1 ? 1 : v); }
+      nb = malloc(n + 69); memcpy(nb, b, ends[k - 1]); memcpy(nb + ends[k - 1], dqt, 69); memcpy(nb + ends[k - 1] + 69, b + ends[k - 1], n - ends[k - 1]);
+      free(b); b = nb; n += 69;
+    }
+  *buf = b; *size = n;
+}
+
+static int make_source(int w, int h, int prec, int cs, int nc, int *hs, int *vs, int kind, int mode, int amp,
+                       unsigned long long seed, reslot_t *rs_, unsigned char **out, unsigned long *outsize)
+{
+  unsigned int base[4][64]; jpeg_scan_info scans[MAX_COMPONENTS];
   struct jpeg_compress_struct c; struct my_err e; int ci, k; JDIMENSION y, x;
   void *rowbuf = NULL;
   *out = NULL; *outsize = 0;
@@ -61,14 +98,23 @@ static int make_source(int w, int h, int prec, int cs, int nc, int *hs, int *vs,
     c.comp_info[ci].quant_tbl_no = ci == 0 ? 0 : (ci == 3 ? 0 : 1);
   }
   if (kind == 0) jpeg_set_quality(&c, amp, TRUE);
-  else {
+  else if (kind == 2) {
+    int t;
+    for (t = 0; t < 4; t++) { for (k = 0; k < 64; k++) base[t][k] = 1 + (unsigned)(rnd() % 60) + 20 * t; jpeg_add_quant_table(&c, t, base[t], 100, TRUE); }
+    for (ci = 0; ci < nc; ci++) c.comp_info[ci].quant_tbl_no = rs_->tq[ci] & 3;
+  } else {
     unsigned int tbl[64]; int t;
     for (t = 0; t < 2; t++) { for (k = 0; k < 64; k++) tbl[k] = 1 + (unsigned)(rnd() % 255); jpeg_add_quant_table(&c, t, tbl, 100, TRUE); }
   }
   if (mode == 1) c.optimize_coding = TRUE;
   if (mode == 2 || mode == 4) jpeg_simple_progression(&c);
+  else if (kind == 2 && nc > 1) {
+    memset(scans, 0, sizeof scans);
+    for (ci = 0; ci < nc; ci++) { scans[ci].comps_in_scan = 1; scans[ci].component_index[0] = rs_->order ? nc - 1 - ci : ci; scans[ci].Ss = 0; scans[ci].Se = 63; }
+    c.scan_info = scans; c.num_scans = nc;
+  }
   if (mode == 3 || mode == 4) { c.arith_code = TRUE; c.optimize_coding = FALSE; }
-  if (kind == 0) {
+  if (kind == 0 || kind == 2) {
     jpeg_start_compress(&c, TRUE);
     if (prec == 8) {
       JSAMPLE *row = malloc((size_t)w * nc); rowbuf = row;
@@ -78,6 +124,7 @@ static int make_source(int w, int h, int prec, int cs, int nc, int *hs, int *vs,
       for (y = 0; y < (JDIMENSION)h; y++) { for (x = 0; x < (JDIMENSION)(w * nc); x++) row[x] = (J12SAMPLE)(rnd() & 4095); J12SAMPROW rp = row; jpeg12_write_scanlines(&c, &rp, 1); }
     }
     jpeg_finish_compress(&c);
+    if (kind == 2) { jpeg_destroy_compress(&c); free(rowbuf); rowbuf = NULL; splice_dqts(out, outsize, rs_, base); return 0; }
   } else {
     jvirt_barray_ptr arr[MAX_COMPONENTS]; int maxh = 1, maxv = 1, wb[MAX_COMPONENTS], hb[MAX_COMPONENTS];
     for (ci = 0; ci < nc; ci++) { if (hs[ci] > maxh) maxh = hs[ci]; if (vs[ci] > maxv) maxv = vs[ci]; }
@@ -115,10 +162,16 @@ static void dump_arrays(j_common_ptr mem_owner, jvirt_barray_ptr *arr, int nc, j
                         int w, int h, int cs, int use_latched)
 {
   int ci, k; JDIMENSION x, y;
+  int t;
   printf("%d %d %d %d", w, h, cs, nc);
+  for (t = 0; t < NUM_QUANT_TBLS; t++) {
+    int used = 0;
+    for (ci = 0; ci < nc; ci++) if (ci0[ci].quant_tbl_no == t) used = 1;
+    if (used && slots[t]) { printf(" 1"); dump_q(slots[t]); } else printf(" 0");
+  }
   for (ci = 0; ci < nc; ci++) {
     jpeg_component_info *cp = ci0 + ci;
-    printf(" %d %d %u %u", cp->h_samp_factor, cp->v_samp_factor, cp->width_in_blocks, cp->height_in_blocks);
+    printf(" %d %d %u %u %d", cp->h_samp_factor, cp->v_samp_factor, cp->width_in_blocks, cp->height_in_blocks, cp->quant_tbl_no);
     dump_q(use_latched && cp->quant_table ? cp->quant_table : slots[cp->quant_tbl_no]);
     for (y = 0; y < cp->height_in_blocks; y++) {
       JBLOCKARRAY ba = (*mem_owner->mem->access_virt_barray) (mem_owner, arr[ci], y, 1, FALSE);
@@ -149,6 +202,7 @@ static const char *err_name_code(int code)
   static char b[64];
   if (code == JERR_BAD_CROP_SPEC) return "BadCrop";
   if (code == JERR_CONVERSION_NOTIMPL) return "NoGray";
+  if (code == JERR_MISMATCHED_QUANT_TABLE) return "QuantReuse";
   snprintf(b, sizeof b, "Other%d", code); return b;
 }
 
@@ -168,7 +222,8 @@ static void stage_tj(unsigned char *src, unsigned long size, int n, xf_t *xf, un
   if (rc != 0) {
     const char *m = tj3GetErrorStr(h);
     const char *nm = strstr(m, "not perfect") ? "NotPerfect" : strstr(m, "Invalid crop request") ? "BadCrop" :
-                     strstr(m, "To crop this JPEG") ? "Align" : strstr(m, "Unsupported color conversion") ? "NoGray" : NULL;
+                     strstr(m, "To crop this JPEG") ? "Align" : strstr(m, "Unsupported color conversion") ? "NoGray" :
+                     strstr(m, "multiple use of quantization table") ? "QuantReuse" : NULL;
     if (nm) printf("err %s", nm); else { char mm[80]; int j; snprintf(mm, sizeof mm, "%s", m); for (j = 0; mm[j]; j++) if (mm[j] == ' ' || mm[j] == '\n' || mm[j] == '|' || mm[j] == '#' || mm[j] == ';') mm[j] = '_'; printf("err Other:%s", mm); }
   } else {
     printf("ok");
@@ -264,13 +319,20 @@ int main(void)
   setvbuf(stdout, NULL, _IOFBF, 1 << 20);
   while (getline(&line, &cap, stdin) > 0) {
     char *p = line; int w, h, prec, cs, nc, hs[MAX_COMPONENTS], vs[MAX_COMPONENTS], kind, mode, amp, nst, i, s, rc;
-    unsigned long long seed; unsigned char *cur = NULL; unsigned long cursize = 0;
+    unsigned long long seed; unsigned char *cur = NULL; unsigned long cursize = 0; reslot_t rsl;
     if (strncmp(p, "case ", 5)) { printf("?\n"); fflush(stdout); continue; }
     p += 5;
     w = tok(&p); h = tok(&p); prec = tok(&p); cs = tok(&p); nc = tok(&p);
     for (i = 0; i < nc && i < MAX_COMPONENTS; i++) { hs[i] = tok(&p); vs[i] = tok(&p); }
-    kind = tok(&p); mode = tok(&p); amp = tok(&p); seed = strtoull(p, &p, 10); nst = tok(&p);
-    rc = make_source(w, h, prec, cs, nc, hs, vs, kind, mode, amp, seed, &cur, &cursize);
+    kind = tok(&p); mode = tok(&p); amp = tok(&p); seed = strtoull(p, &p, 10);
+    memset(&rsl, 0, sizeof rsl);
+    if (kind == 2) {
+      for (i = 0; i < nc && i < MAX_COMPONENTS; i++) rsl.tq[i] = tok(&p);
+      rsl.order = tok(&p); rsl.nsplice = tok(&p); if (rsl.nsplice > 8) rsl.nsplice = 8;
+      for (i = 0; i < rsl.nsplice; i++) { rsl.after[i] = tok(&p); rsl.slot[i] = tok(&p); rsl.delta[i] = tok(&p); }
+    }
+    nst = tok(&p);
+    rc = make_source(w, h, prec, cs, nc, hs, vs, kind, mode, amp, seed, &rsl, &cur, &cursize);
     if (rc) { printf("srcerr %d\n", rc); fflush(stdout); continue; }
     for (s = 0; s < nst; s++) {
       int path = tok(&p), n = tok(&p); xf_t xf[8]; unsigned char *next = NULL; unsigned long nextsize = 0;
